@@ -12,9 +12,10 @@ np.delete       (a, i) / (a, i, axis=0) for an integer i: row i removed, require
 np.argpartition (a, kth) 1-D, concrete kth: requires 0 <= kth < len(a) (numpy raises ValueError otherwise);
                 returns a permutation p of range(len(a)) with a[p[t]] <= a[p[kth]] for t < kth and
                 a[p[kth]] <= a[p[u]] for u > kth.  Relational contract: p is a fresh uninterpreted function; the
-                facts for the positions 0..kth are assumed at the call, the universally quantified rest
-                ("every index m is one of p[0..kth] or has a[m] >= a[p[kth]]") is handed to the contract as an
-                instance generator (trace event 'argpartition').
+                a[p[kth]] <= a[p[u]] for u > kth.  Relational contract: p is an uninterpreted function of the position and
+                of the array (lambda-lifted over the free symbols of the array content); the facts for the positions
+                0..kth are assumed at the call, the universally quantified rest ("every index m is one of p[0..kth] or
+                has a[m] >= a[p[kth]]") is available to contracts as an instance generator (argpartition_terms).
 """
 from __future__ import annotations
 
@@ -170,7 +171,44 @@ def np_delete(interp, a, obj, axis=None):
     return A.new_arr(shape, fn, a.dtype)
 
 
-_NPART = [0]
+_AP = {}        # canonical content of the partitioned array -> (function symbol, number of parameters)
+CALLS = []      # kth of every np.argpartition call executed in this process (contracts re-instantiate the assumed facts)
+
+
+def argpartition_terms(reader, n, kth):
+    """the assumed contract of np.argpartition(a, kth) instantiated for the 1-D array a[m] = reader(m) of length n:
+    the permutation is a function of the array: AP<k>(t, <free symbols of a's content>) (lambda-lifted like the sums)
+    -> dict(first=[p(0..kth)], facts=[...about p(0..kth)], others=instance generator for the remaining positions)"""
+    from pyvc.sigma import VAR0, _placeholder, free_consts
+    m = z3.Int(sv.fresh_name("apm"))
+    body = sv.zr(norm(reader(SV(m))))
+    body = z3.simplify(body)
+    frees = free_consts(body, exclude=[m])
+    ph = [_placeholder(c.sort(), i) for i, c in enumerate(frees)]
+    canon = z3.substitute(body, (m, VAR0), *zip(frees, ph)) if frees else z3.substitute(body, (m, VAR0))
+    key = (canon.sexpr(), tuple(str(p.sort()) for p in ph))
+    if key not in _AP:
+        _AP[key] = z3.Function(f"AP{len(_AP)}", z3.IntSort(), z3.IntSort(), *[p.sort() for p in ph], z3.IntSort())
+    pf = _AP[key]
+
+    def p(t):
+        return SV(pf(sv.znum(t), sv.znum(n), *frees))
+    r = lambda x: reader(x)
+    P = [p(t) for t in range(kth + 1)]
+    facts = []
+    for t in range(kth + 1):
+        facts.append(sv.and_(sv.cmp(">=", P[t], 0), sv.cmp("<", P[t], n)))
+        for u in range(t):
+            facts.append(sv.cmp("!=", P[t], P[u]))
+    pivot = r(P[kth])
+    for t in range(kth):
+        facts.append(sv.cmp("<=", r(P[t]), pivot))
+
+    def others(x):
+        """instance at index x of: forall x in [0,n): x in {p[0..kth]} or a[x] >= a[p[kth]]"""
+        inr = sv.and_(sv.cmp(">=", x, 0), sv.cmp("<", x, n))
+        return sv.implies(inr, sv.or_(*([sv.cmp("==", x, y) for y in P] + [sv.cmp(">=", r(x), pivot)])))
+    return dict(first=P, facts=facts, others=others, p=p)
 
 
 def np_argpartition(interp, a, kth, **kw):
@@ -186,27 +224,13 @@ def np_argpartition(interp, a, kth, **kw):
         raise EngineError("argpartition with negative kth")
     # numpy: ValueError "kth(=k) out of bounds (n)" unless kth < n
     cur().require(sv.cmp("<", kth, n), "argpartition-kth-in-range")
-    _NPART[0] += 1
-    pf = z3.Function(sv.fresh_name("argpart"), z3.IntSort(), z3.IntSort())
-    r = a.reader()
-
-    def p(t):
-        return SV(pf(sv.znum(t)))
-    P = [p(t) for t in range(kth + 1)]
+    rd = a.reader()
+    ap = argpartition_terms(lambda x: rd((x,)), n, kth)
     st = cur()
-    for t in range(kth + 1):
-        st.assume(sv.and_(sv.cmp(">=", P[t], 0), sv.cmp("<", P[t], n)))
-        for u in range(t):
-            st.assume(sv.cmp("!=", P[t], P[u]))
-    pivot = r((P[kth],))
-    for t in range(kth):
-        st.assume(sv.cmp("<=", r((P[t],)), pivot))
-
-    def others(m):
-        """instance at index m of: forall m in [0,n): m in {p[0..kth]} or a[m] >= a[p[kth]]"""
-        inr = sv.and_(sv.cmp(">=", m, 0), sv.cmp("<", m, n))
-        return sv.implies(inr, sv.or_(*([sv.cmp("==", m, x) for x in P] + [sv.cmp(">=", r((m,)), pivot)])))
-    st.trace.append(("argpartition", {"first": P, "kth": kth, "others": others, "n": n, "where": st.where}))
+    for f in ap["facts"]:
+        st.assume(f)
+    CALLS.append(kth)
+    P, p = ap["first"], ap["p"]
 
     def fn(idx):
         t = idx[0]
